@@ -29,6 +29,7 @@ type gscope struct {
 	vars   map[string]gvar
 	parent *gscope
 	isLoop bool // scope of a for loop: re-executed on every iteration
+	condAt int  // conditional nesting depth at which the scope was opened
 }
 
 func (s *gscope) lookup(name string) (gvar, bool) {
@@ -83,18 +84,21 @@ type genCfg struct {
 }
 
 type gen struct {
-	t        *rapid.T
-	cfg      genCfg
-	scope    *gscope
-	budget   int
-	loops    []string // enclosing loop labels ("" for unlabelled) within the current function
-	labels   map[string]bool
-	nextLbl  int
-	planted  bool
-	probeN   int
-	features map[string]bool
-	argDepth int      // >0 while generating an argument of a call / builtin / trace
-	tags     []string // known-shape tags of this program (see known_findings.txt)
+	t         *rapid.T
+	cfg       genCfg
+	scope     *gscope
+	budget    int
+	loops     []string // enclosing loop labels ("" for unlabelled) within the current function
+	labels    map[string]bool
+	nextLbl   int
+	planted   bool
+	probeN    int
+	features  map[string]bool
+	defMode   bool     // picking the name of a def / defn (see stmt)
+	fnStack   []string // names of the defn forms being generated (outermost first)
+	condDepth int      // nesting depth of conditionally evaluated positions
+	argDepth  int      // >0 while generating an argument of a call / builtin / trace
+	tags      []string // known-shape tags of this program (see known_findings.txt)
 }
 
 func newGen(t *rapid.T, cfg genCfg) *gen {
@@ -103,8 +107,22 @@ func newGen(t *rapid.T, cfg genCfg) *gen {
 
 func (g *gen) feat(f string) { g.features[f] = true }
 
-func (g *gen) push() { g.scope = &gscope{vars: map[string]gvar{}, parent: g.scope} }
-func (g *gen) pop()  { g.scope = g.scope.parent }
+func (g *gen) push() {
+	g.scope = &gscope{vars: map[string]gvar{}, parent: g.scope, condAt: g.condDepth}
+}
+
+// condArm generates e inside a conditionally evaluated position: a definition made
+// there into a scope opened outside might or might not happen at run time, which
+// would make the static types this generator tracks unreliable.
+func (g *gen) condArm(typ string, d int) *Node {
+	g.condDepth++
+	n := g.expr(typ, d)
+	g.condDepth--
+	return n
+}
+
+func (g *gen) defAllowed() bool { return g.scope.condAt == g.condDepth }
+func (g *gen) pop()             { g.scope = g.scope.parent }
 
 func (g *gen) pick(n int, label string) int { return rapid.IntRange(0, n-1).Draw(g.t, label) }
 func (g *gen) chance(n int, label string) bool {
@@ -130,11 +148,19 @@ func (g *gen) maybeTrace(n *Node) *Node {
 	return n
 }
 
-func (g *gen) tag(s string) {
-	if !contains(g.tags, s) {
-		g.tags = append(g.tags, s)
-		sortStrings(g.tags)
+// keepKnown decides whether a shape that is a listed known finding is kept (and the
+// program tagged with it) or must be excluded by construction. A program carries at
+// most one tag, so that its failures are attributable to exactly one known finding.
+func (g *gen) keepKnown(shape string, oneIn int) bool {
+	if len(g.tags) == 1 && g.tags[0] == shape {
+		return true
 	}
+	if len(g.tags) == 0 && g.chance(oneIn, "keep-"+shape) {
+		g.tags = []string{shape}
+		return true
+	}
+	g.feat("excluded:" + shape)
+	return false
 }
 
 // breaksCrossingCallArgs finds break/continue nodes whose target loop lies outside a
@@ -190,7 +216,6 @@ func breaksCrossingCallArgs(forms []*Node) []*Node {
 	return out
 }
 
-
 // freshName picks a name for a new definition of type typ in the current
 // innermost scope: a name already bound in this scope is only reused with the
 // same type (zygo refuses to re-def at another type in one scope; the property
@@ -203,7 +228,7 @@ func (g *gen) freshName(typ string, pool []string) string {
 			// the result of map), so they are never re-def'd in one scope at all
 			continue
 		}
-		if g.scope.isLoop {
+		if g.defMode || g.scope.isLoop {
 			// a loop scope is re-executed: a def that shadows an outer name of another type
 			// would change, on the next iteration, the dynamic type of everything defined
 			// from that name earlier in the body (zygo's same-scope re-def type rule again)
@@ -284,9 +309,14 @@ func (g *gen) exprInner(typ string, depth int) *Node {
 		g.feat("cond")
 		n := N("cond")
 		for i := 0; i < 1+g.pick(2, "arms"); i++ {
-			n.Kids = append(n.Kids, g.expr("bool", d), g.expr(typ, d))
+			if i == 0 {
+				n.Kids = append(n.Kids, g.expr("bool", d))
+			} else {
+				n.Kids = append(n.Kids, g.condArm("bool", d))
+			}
+			n.Kids = append(n.Kids, g.condArm(typ, d))
 		}
-		n.Kids = append(n.Kids, g.expr(typ, d))
+		n.Kids = append(n.Kids, g.condArm(typ, d))
 		return n
 	case 1:
 		// let / letseq
@@ -354,7 +384,11 @@ func (g *gen) exprInner(typ string, depth int) *Node {
 		g.feat(kind)
 		n := N(kind)
 		for i := 0; i < 2+g.pick(2, "scn"); i++ {
-			n.Kids = append(n.Kids, g.expr("int", d))
+			if i == 0 {
+				n.Kids = append(n.Kids, g.expr("int", d))
+			} else {
+				n.Kids = append(n.Kids, g.condArm("int", d))
+			}
 		}
 		return n
 	}
@@ -368,7 +402,7 @@ func (g *gen) exprInner(typ string, depth int) *Node {
 		case 1:
 			kind := rapid.SampledFrom([]string{"and", "or"}).Draw(g.t, "bsc")
 			g.feat(kind)
-			return N(kind, g.expr("bool", d), g.expr("bool", d))
+			return N(kind, g.expr("bool", d), g.condArm("bool", d))
 		case 2:
 			if !g.cfg.ScopeOnly {
 				return NPrim(rapid.SampledFrom([]string{"==", "!=", "<"}).Draw(g.t, "scmp"), g.expr("str", d), g.expr("str", d))
@@ -633,15 +667,28 @@ func (g *gen) stmt(d int) *Node {
 	if g.cfg.ScopeOnly {
 		max = 5
 	}
-	switch g.pick(max, "stmtk") {
+	k := g.pick(max, "stmtk")
+	if !g.defAllowed() && (k == 0 || k == 1 || k == 7) {
+		k = 9
+	}
+	switch k {
 	case 0, 1:
 		// def of a new (or same-typed) name in the innermost scope
 		typ := rapid.SampledFrom([]string{"int", "int", "int", "bool", "str", "arr", "list", "hash", "fn1", "float"}).Draw(g.t, "dt")
 		if g.cfg.ScopeOnly {
 			typ = rapid.SampledFrom([]string{"int", "int", "fn1"}).Draw(g.t, "dts")
 		}
+		if g.scope.isLoop && !scalarType(typ) {
+			// re-executed on every iteration with content-dependent dynamic types
+			typ = "int"
+		}
 		v := g.expr(typ, d)
+		// a def that shadows an outer name of another type would change, for closures already
+		// created in this scope, what that name means (and with it the dynamic types of their
+		// results); shadowing by let bindings and parameters is static and unrestricted
+		g.defMode = true
 		nm := g.freshName(typ, g.cfg.VarNames)
+		g.defMode = false
 		g.scope.vars[nm] = gvar{typ: typ}
 		g.feat("def")
 		return NDef(nm, v)
@@ -700,6 +747,8 @@ func (g *gen) forLoop(d int) *Node {
 		n.Label = fmt.Sprintf("L%d", g.nextLbl)
 		g.feat("labelled-for")
 	}
+	g.condDepth++ // the body may run zero times
+	defer func() { g.condDepth-- }()
 	g.push()
 	g.scope.isLoop = true
 	iv := g.freshName("int", []string{"i", "j", "k"})
@@ -749,7 +798,21 @@ func (g *gen) forLoop(d int) *Node {
 // defn: a named function; sometimes recursive, sometimes variadic.
 func (g *gen) defn(d int) *Node {
 	g.feat("defn")
+	g.defMode = true
 	name := g.freshName("defn", g.cfg.FnNames)
+	g.defMode = false
+	if contains(g.fnStack, name) {
+		// An inner function that shadows the name of a function it is nested in. zygo decides
+		// "self tail call" by name when it compiles; an inner defn that is compiled later (inside
+		// a call argument) is not seen then (known finding), so this shape is tagged or avoided.
+		if !g.keepKnown("inner-defn-shadows-enclosing-function", 6) {
+			for i := 0; contains(g.fnStack, name); i++ {
+				name = fmt.Sprintf("%s%d", g.cfg.FnNames[0], i)
+			}
+		}
+	}
+	g.fnStack = append(g.fnStack, name)
+	defer func() { g.fnStack = g.fnStack[:len(g.fnStack)-1] }()
 	n := &Node{K: "defn", S: name}
 	sig := &fnsig{Ret: rapid.SampledFrom([]string{"int", "int", "int", "bool", "arr"}).Draw(g.t, "ret")}
 	if g.cfg.ScopeOnly {
@@ -857,13 +920,10 @@ func (g *gen) program() []*Node {
 // finish applies the exclusions-by-construction for known findings.
 func (g *gen) finish(forms []*Node) {
 	if bad := breaksCrossingCallArgs(forms); len(bad) > 0 {
-		if g.chance(20, "keepBreakInArg") {
-			g.tag("break-inside-call-argument")
-		} else {
+		if !g.keepKnown("break-inside-call-argument", 20) {
 			for _, n := range bad {
 				n.K, n.Label = "nil", ""
 			}
-			g.feat("excluded:break-inside-call-argument")
 		}
 	}
 }
